@@ -122,3 +122,7 @@ def check(report: Report, repo: Repo) -> None:
                     fmt(target),
                 )
     report.floor("product-law instances", n, 12)
+    # the depth D entering the law is the tag the depth containers record: must be the number of layers
+    from .c08 import check_depth_containers
+
+    check_depth_containers(report, repo, "depth-tag")
